@@ -48,6 +48,7 @@ struct ProcInfo {
     ret: T,
     params: Vec<T>,
     recursive: bool,
+    is_static: bool,
 }
 
 struct G<'a> {
@@ -61,6 +62,9 @@ struct G<'a> {
     feats: Vec<&'static str>,
     for_depth: u32,
     arg_depth: u32,
+    /// the program declares DIM SHARED variables (G%, H%, GL&, GS!, GD#, GT$) / global CONSTs (KI%, KL&, KD#, KT$)
+    shared: bool,
+    consts: bool,
 }
 
 impl<'a> G<'a> {
@@ -88,6 +92,17 @@ impl<'a> G<'a> {
             }
             // (the function's own name is never read: that would be a call; it is only an assignment target)
         }
+        if self.shared && self.rng.chance(1, 3) {
+            self.feat(if self.cur.is_some() { "shared-in-proc" } else { "shared-in-main" });
+            let names: &[&str] = match t {
+                T::Int => &["G", "H"],
+                T::Long => &["GL"],
+                T::Sgl => &["GS"],
+                T::Dbl => &["GD"],
+                T::Str => &["GT"],
+            };
+            return format!("{}{}", *self.rng.pick(names), sfx(t));
+        }
         let names: &[&str] = match t {
             T::Int => &["A", "B", "C"],
             T::Long => &["L", "M"],
@@ -101,6 +116,16 @@ impl<'a> G<'a> {
     }
 
     fn lit(&mut self, t: T) -> String {
+        if self.consts && t != T::Sgl && self.rng.chance(1, 5) {
+            self.feat("const");
+            return match t {
+                T::Int => "KI%",
+                T::Long => "KL&",
+                T::Dbl => "KD#",
+                _ => "KT$",
+            }
+            .to_owned();
+        }
         match t {
             T::Int => format!("{}", self.rng.range(-3, 12)),
             T::Long => format!("{}", *self.rng.pick(&[0i64, 1, 7, 40000, 70000, -50000, 100000])),
@@ -385,6 +410,7 @@ impl<'a> G<'a> {
             let np = self.rng.range(0, 3);
             let mut params: Vec<T> = (0..np).map(|_| self.any_ty()).collect();
             let recursive = self.rng.chance(1, 3);
+            let is_static = self.rng.chance(2, 5);
             if recursive {
                 if params.is_empty() {
                     params.push(T::Int);
@@ -398,6 +424,7 @@ impl<'a> G<'a> {
                 ret,
                 params,
                 recursive,
+                is_static,
             });
         }
         let mut lines = vec![];
@@ -406,6 +433,16 @@ impl<'a> G<'a> {
                 let plist: Vec<String> = p.params.iter().enumerate().map(|(i, t)| format!("P{}{}", i, sfx(*t))).collect();
                 lines.push(format!("DECLARE {} {} ({})", if p.is_fn { "FUNCTION" } else { "SUB" }, p.name, plist.join(", ")));
             }
+        }
+        if self.shared {
+            lines.push("DIM SHARED G%, H%".to_owned());
+            lines.push("DIM SHARED GL&, GS!, GD#, GT$".to_owned());
+        }
+        if self.consts {
+            lines.push("CONST KI% = 3".to_owned());
+            lines.push("CONST KL& = 70000".to_owned());
+            lines.push("CONST KD# = 2.5#".to_owned());
+            lines.push("CONST KT$ = \"k\"".to_owned());
         }
         // main module
         self.cur = None;
@@ -424,6 +461,9 @@ impl<'a> G<'a> {
             }
         }
         lines.push("PRINT A%; B%; C%; L&; T$".to_owned());
+        if self.shared {
+            lines.push("PRINT G%; H%; GL&; GT$".to_owned());
+        }
         if self.rng.chance(1, 2) {
             lines.push("END".to_owned());
         }
@@ -433,14 +473,24 @@ impl<'a> G<'a> {
             let plist: Vec<String> = p.params.iter().enumerate().map(|(i, t)| format!("P{}{}", i, sfx(*t))).collect();
             let kw = if p.is_fn { "FUNCTION" } else { "SUB" };
             lines.push(String::new());
+            let st = if p.is_static { " STATIC" } else { "" };
             lines.push(if plist.is_empty() && self.rng.chance(1, 2) {
-                format!("{} {}", kw, p.name)
+                format!("{} {}{}", kw, p.name, st)
             } else {
-                format!("{} {} ({})", kw, p.name, plist.join(", "))
+                format!("{} {} ({}){}", kw, p.name, plist.join(", "), st)
             });
             self.cur = Some(k);
             self.callable = k;
             let mut body = vec![];
+            if p.is_static {
+                // a counter that must persist from one call to the next, wherever the calls come from
+                self.feat("static");
+                body.push("  CNT% = CNT% + 1".to_owned());
+                body.push(format!("  PRINT \"{}#\"; CNT%;", p.name));
+                if p.recursive {
+                    self.feat("static-recursion");
+                }
+            }
             if p.recursive {
                 self.feat("recursion");
                 body.push("  IF P0% > 0 AND P0% < 4 THEN".to_owned());
@@ -483,7 +533,9 @@ impl<'a> G<'a> {
 }
 
 fn gen_dedicated(rng: &mut Rng, faults: bool) -> (String, Vec<&'static str>) {
-    let mut g = G { rng, procs: vec![], callable: 0, cur: None, faults, feats: vec![], for_depth: 0, arg_depth: 0 };
+    let shared = rng.chance(3, 5);
+    let consts = rng.chance(2, 5);
+    let mut g = G { rng, procs: vec![], callable: 0, cur: None, faults, feats: vec![], for_depth: 0, arg_depth: 0, shared, consts };
     let text = g.program();
     (text, g.feats)
 }
@@ -581,6 +633,11 @@ fn shrink(text: &str, which: &str, what: &str) -> String {
 fn main() {
     if let Some(path) = std::env::args().nth(1) {
         let text = std::fs::read_to_string(path).unwrap();
+        if std::env::var("VERIF_C03P_SHOW").is_ok() {
+            if let Some((pp, code)) = proc_sx::src_and_code(&text) {
+                println!("program {}\ntables  {}\ncode    {}", pp.program, pp.tables, code);
+            }
+        }
         match verdicts(&text) {
             None => {
                 let t = text.clone();
@@ -607,10 +664,13 @@ fn main() {
     let mut rng = Rng::from_env();
     let mut rep = Report::new(
         "C03",
-        "programs with SUBs and FUNCTIONs (scalars; no STATIC/SHARED/GOSUB/ON ERROR): a dedicated generator (1-4 procedures, 0-3 typed \
+        "programs with SUBs and FUNCTIONs (scalars; no GOSUB/ON ERROR): a dedicated generator (1-4 procedures, 0-3 typed \
          parameters, bounded self-recursion, calls nested in argument lists, the same variable passed twice, by-value arguments converted \
          to the parameter type with overflow faults, FUNCTION without assignment, unused parameters, EXIT SUB/FUNCTION and END inside \
-         procedures, calls inside IF/FOR/WHILE/SELECT and inside PRINT lists) + the shared program generator with procedures on; each \
+         procedures, calls inside IF/FOR/WHILE/SELECT and inside PRINT lists; DIM SHARED variables read, written and passed by reference \
+         in the main module and in procedures; STATIC procedures — also recursive ones — with a call counter, called from the main module \
+         and from other procedures between calls of ordinary ones, their variables passed by reference; global CONSTs) + the shared \
+         program generator with procedures on; each \
          program: model-compiled instruction list = real list, VM model on it = real outcome and stdout, reference semantics = real \
          outcome and stdout. class = (feature set, outcome kind); non-trivial = at least one user procedure called.",
     );
@@ -650,7 +710,7 @@ fn main() {
             _ => outside_shared += 1,
         }
     }
-    rep.bump_by("generated.shared.outside(STATIC etc.)", outside_shared);
+    rep.bump_by("generated.shared.outside", outside_shared);
     // real runs, in parallel
     let reals: Vec<Observed> = {
         let texts: Vec<String> = cases.iter().map(|c| c.text.clone()).collect();
